@@ -568,8 +568,12 @@ impl<B: Backend> Compiler<B, CompilerReady> {
                 })
             }
             OutputMode::Stdout => {
-                std::io::stdout()
+                // stdout is buffered: without flushing, a failing write would only surface
+                // (and be ignored) when the process exits
+                let mut stdout = std::io::stdout().lock();
+                stdout
                     .write_all(generated.as_bytes())
+                    .and_then(|_| stdout.flush())
                     .map_err(|err| {
                         GeneratorError::new(
                             None,
